@@ -165,3 +165,22 @@ func TestQuoteSpec(t *testing.T) {
 	}
 	kit.R.Note("spec_examples_enumerated", n)
 }
+
+// TestQuoteConstructs applies the relation to the construct-adjacency
+// documents (pairs/triples of block constructs) that contain no TAB/CR.
+func TestQuoteConstructs(t *testing.T) {
+	cfgs := []gen.Config{{}, {GFM: true, Unsafe: true}}
+	n := gen.EnumConstructDocs(kit.Thorough(), func(idx int, doc []byte) {
+		if !kit.Mine(idx) || bytes.ContainsAny(doc, "\t\r") || len(bytes.TrimSpace(doc)) == 0 {
+			return
+		}
+		for _, cfg := range cfgs {
+			c := kit.NewCase("quote", cfg.String()).B("src", doc).I("n", 1)
+			if kit.Check(t, c) {
+				kit.R.Class("gen:exhaustive-constructs")
+				kit.R.NonTrivial(c)
+			}
+		}
+	})
+	kit.R.Note("exhaustive_constructs", n)
+}
